@@ -20,7 +20,7 @@ def ofV : V → Heap → GV × Heap
   | .str s, h => (.str s, h)
   | .arr xs, h => let (vs, h1) := ofVs xs h; (.slice vs, h1)
   | .obj kvs, h => let (es, h1) := ofKvs kvs [] h; (.ref h1.length, h1 ++ [{ ty := "map[string]interface{}", kvs := es }])
-  | .int i, h => (.int i, h)
+  | .int i, h => (.numT .i64 i, h)
   | .bobj kvs, h => let (es, h1) := ofKvs kvs [] h; (.ref h1.length, h1 ++ [{ ty := "Bindings", kvs := es }])
   | .other t, h => (.other t, h)
 def ofVs : List V → Heap → List GV × Heap
